@@ -313,7 +313,8 @@ def do_psel(job):
                 if got != expr:
                     bad("psel_read_standalone", {"w": w, "signed": signed, "old": old, "hi": hi, "lo": lo}, got, expr)
                 sw = hi - lo + 1
-                for v in range(0, (1 << sw)):
+                # values that fit the slice, values wider than the slice and negative ones
+                for v in list(range(0, (1 << sw))) + [(1 << sw), (1 << sw) + 1, (1 << (sw + 1)) - 1, (1 << w) - 1, -1, -2]:
                     sa.set_val(old)
                     sa[hi:lo] = v
                     cnt["transitions"] += 1
@@ -437,9 +438,53 @@ def do_enum(job):
     return {"viol": viol, "cnt": cnt, "states": len(states), "job": ["enum"]}
 
 
+def do_randlist(job):
+    """signed / unsigned random lists read after a randomize() that pins every element (the solver writes the
+    values back): index and iteration must agree and stay inside the element type"""
+    w, signed = job
+    viol = []
+    cnt = {"transitions": 0, "evaluations": 0}
+    states = set()
+    T = vsc.int_t if signed else vsc.bit_t
+    dom = list(range(-(1 << (w - 1)), 1 << (w - 1))) if signed else list(range(1 << w))
+
+    @vsc.randobj
+    class RL(object):
+        def __init__(self):
+            self.l = vsc.rand_list_t(T(w), 2)
+            self.s = (vsc.rand_int_t if signed else vsc.rand_bit_t)(w)
+    o = RL()
+    menu = dom if w <= 4 else sorted(set([dom[0], dom[0] + 1, -1 if signed else 1, 0, 1, dom[-1] - 1, dom[-1]]))
+    for a in menu:
+        for b in (menu if w <= 3 else [menu[0], menu[-1], 0]):
+            try:
+                with common.silenced():
+                    with o.randomize_with() as it:
+                        it.l[0] == a
+                        it.l[1] == b
+                        it.s == a
+            except Exception as e:
+                viol.append({"subcheck": "randlist_call", "case": {"w": w, "signed": signed, "v": [a, b]}, "observed": type(e).__name__,
+                             "expected": "returns", "what": "randomize_with pinning list elements to %r raised %s" % ([a, b], type(e).__name__)})
+                continue
+            cnt["transitions"] += 1
+            got_i = [int(o.l[0]), int(o.l[1])]
+            got_t = [int(x) for x in o.l]
+            got_s = int(o.s)
+            cnt["evaluations"] += 3
+            states.add(tuple(got_i))
+            if got_i != [a, b] or got_t != [a, b] or got_s != a:
+                if len(viol) < 10:
+                    viol.append({"subcheck": "randlist_read", "case": {"w": w, "signed": signed, "v": [a, b]},
+                                 "observed": {"index": got_i, "iter": got_t, "scalar": got_s}, "expected": [a, b],
+                                 "what": "after a call that pins the elements to %r: indexing reads %r, iteration %r, scalar field %r" % (
+                                     [a, b], got_i, got_t, got_s)})
+    return {"viol": viol, "cnt": cnt, "states": len(states), "job": [w, signed]}
+
+
 def _dispatch(job):
     kind = job[0]
-    fn = {"scalar": do_scalar, "list": do_list, "psel": do_psel, "enum": do_enum}[kind]
+    fn = {"scalar": do_scalar, "list": do_list, "psel": do_psel, "enum": do_enum, "randlist": do_randlist}[kind]
     r = fn(job[1:])
     r["kind"] = kind
     return r
@@ -472,6 +517,9 @@ def run(res, only=None):
         for s in (False, True):
             jobs.append(("psel", w, s))
     jobs.append(("enum",))
+    for w in ((2, 3, 4, 8) if tier == "quick" else (1, 2, 3, 4, 5, 8, 16, 32)):
+        for sg in (False, True):
+            jobs.append(("randlist", w, sg))
     if only:
         jobs = [j for j in jobs if j[0] == only]
     jobs = common.rotate(jobs, res.seed)
@@ -537,7 +585,7 @@ def replay(rec):
         return got == exp, "read %r expected %r" % (got, exp)
     # generic: re-run the whole job the case belongs to and look for the same case
     kind = {"scalar": "scalar", "ctor": "scalar", "plus": "scalar", "minu": "scalar", "list": "list",
-            "psel": "psel", "bit_": "psel", "enum": "enum"}[sub[:4]]
+            "psel": "psel", "bit_": "psel", "enum": "enum", "rand": "randlist"}[sub[:4]]
     job = (kind,) if kind == "enum" else (kind, c["w"], c["signed"])
     r = _dispatch(job)
     for v in r["viol"]:
